@@ -1,4 +1,4 @@
-\* generated with the builder script of C02/C08; families: MCSearchers.tla
+\* generated by mkcfg_searchers.py; families and layouts: MCSearchers.tla
 SPECIFICATION Spec
 CONSTANTS
   SegSizes <- Segs21
@@ -11,7 +11,7 @@ CONSTANTS
   Family = "q2"
   DropK1 = FALSE
   Queries <- MCQueries
-  FixEmptySnapshot = FALSE
+  FixEmptySnapshot = TRUE
   FixBoolAdvance = FALSE
   FixShouldMin = FALSE
   FirstAdvanceOK <- FirstAdvAlways
